@@ -28,7 +28,7 @@ def _mesa():
 # WeakMethod the owners' `==` - whether a handler is still subscribed at its turn: one that has unsubscribed while notified is
 # called again if the handler of an *equal* owner is still in the list.  Until that is repaired the generator does not combine
 # value-equal owners (`veq`) with handlers that make registry calls (`prog:`); the witness below is replayed on every run.
-VEQ_WITH_PROGS = False
+VEQ_WITH_PROGS = True    # G13b is repaired: value-equal owners and calling handlers are combined
 G13B_WITNESS = ["scenario sig 0:obs:change 1:lst:remove,replace,change,insert,append prog:1:u.*.*.1 veq",
                 "observe 0 change 3", "observe 0 change 1", "observe 0 * 1", "set 0 1", "subs", "set 0 2"]
 
